@@ -849,11 +849,12 @@ Proof.
   - intros name. apply (parsed_fields_values fs h name T).
 Qed.
 
-Lemma cli_refusal_code g fs r : recv_response g fs = Refused r -> r_code r = H3_MESSAGE_ERROR_rfc.
+Lemma cli_refusal_code g fs r :
+  recv_response g fs = Refused r -> r_code r = H3_MESSAGE_ERROR_rfc /\ r_stop_sending r = Some H3_MESSAGE_ERROR_rfc.
 Proof.
   unfold recv_response. intros H.
   destruct (try_from g fs) as [h|e|s]; [destruct (into_response_parts h) as [[st hd]|e|s]|..];
-    inversion H; subst; reflexivity.
+    inversion H; subst; split; reflexivity.
 Qed.
 Lemma trl_refusal_code g fs r :
   recv_trailers g fs = Refused r -> r_code r = H3_MESSAGE_ERROR_rfc /\ r_stop_sending r = Some H3_MESSAGE_ERROR_rfc.
@@ -863,7 +864,7 @@ Qed.
 
 Theorem response_gate_complete g fs :
   wf_fields fs -> ~ wf_response http_parseable fs ->
-  exists r, recv_response g fs = Refused r /\ r_code r = H3_MESSAGE_ERROR_rfc.
+  exists r, recv_response g fs = Refused r /\ r_code r = H3_MESSAGE_ERROR_rfc /\ r_stop_sending r = Some H3_MESSAGE_ERROR_rfc.
 Proof.
   intros W NW. destruct (recv_response g fs) as [rs|r|s] eqn:R.
   - exfalso. apply NW. eapply response_gate_sound; eassumption.
